@@ -93,13 +93,15 @@ type LocalSpec struct {
 }
 
 type Spec struct {
-	Module  string      `json:"module"`  // output file Gen/<Module>.lean
-	Imports []string    `json:"imports"` // other Gen modules this one refers to
-	Consts  []ConstSpec `json:"consts"`
-	Locals  []LocalSpec `json:"locals"`
-	Preds   []PredSpec  `json:"preds"`
-	Skels   []SkelSpec  `json:"skels"`
-	Routes  []RouteSpec `json:"routes"`
+	Module      string      `json:"module"`       // output file Gen/<Module>.lean
+	Imports     []string    `json:"imports"`      // other Gen modules this one refers to
+	LeanImports []string    `json:"lean_imports"` // hand-written Lean modules (receiver structures of translated predicates)
+	Lits        []LitSpec   `json:"lits"`
+	Consts      []ConstSpec `json:"consts"`
+	Locals      []LocalSpec `json:"locals"`
+	Preds       []PredSpec  `json:"preds"`
+	Skels       []SkelSpec  `json:"skels"`
+	Routes      []RouteSpec `json:"routes"`
 }
 
 var fset = token.NewFileSet()
@@ -966,7 +968,13 @@ func genModule(repo string, spec *Spec, outDir string) {
 	for _, im := range spec.Imports {
 		cs.WriteString("import TunnoxModel.Gen." + im + "\n")
 	}
+	for _, im := range spec.LeanImports {
+		cs.WriteString("import " + im + "\n")
+	}
 	cs.WriteString("open Tunnox.PredPrelude\nnamespace Gen\n\n")
+	for i := range spec.Lits {
+		genLit(repo, &spec.Lits[i], &cs)
+	}
 	for _, c := range spec.Consts {
 		p := loadPkg(repo, c.Dir)
 		fmt.Fprintf(&cs, "namespace %s\n", c.NS)
